@@ -22,7 +22,7 @@ def change(rng=None, kind=None):
 
 def all_changes():
     ch = [dict(set_paths=s) for s in sets(2)]
-    ch += [dict(set_kind="poll"), dict(set_kind="native"), dict(other=True)]
+    ch += [dict(set_kind="poll"), dict(set_kind="poll2"), dict(set_kind="native"), dict(other=True)]
     return ch
 
 
